@@ -913,6 +913,32 @@ func help2helpers(c *Ctx, ph *ssa.Function) {
 			if !isR || h == nil || sl != ssa.Value(fn.Params[0]) {
 				return
 			}
+			// the part may be read more than once (parts[i] written out each time): one group, judged once
+			var group []ssa.Value
+			ir.Instrs(fn, func(in2 ssa.Instruction) {
+				if u, isU := in2.(ssa.Value); isU && sameElem(u, v) {
+					group = append(group, u)
+				}
+			})
+			if len(group) == 0 || group[0] != v {
+				return
+			}
+			isPart := func(x ssa.Value) bool {
+				for _, g := range group {
+					if g == x {
+						return true
+					}
+				}
+				return false
+			}
+			mentionsPart := func(x ssa.Value) bool {
+				for _, g := range group {
+					if mentionsValue(x, g, 0) {
+						return true
+					}
+				}
+				return false
+			}
 			for _, hin := range h.Instrs {
 				acc, isPhi := hin.(*ssa.Phi)
 				if !isPhi || acc.Comment == "rangeindex" || !isStringType(acc.Type()) {
@@ -941,7 +967,7 @@ func help2helpers(c *Ctx, ph *ssa.Function) {
 					leaves = append(leaves, leaf{e, p, h})
 				}
 				for _, lf := range leaves {
-					if mentionsValue(lf.v, acc, 0) && mentionsValue(lf.v, v, 0) {
+					if mentionsValue(lf.v, acc, 0) && mentionsPart(lf.v) {
 						continue
 					}
 					// left out: only a blank part
@@ -955,14 +981,14 @@ func help2helpers(c *Ctx, ph *ssa.Function) {
 							return
 						}
 						if sv, isS := ir.ConstString(bo.Y); isS && sv == "" && (bo.Op == token.EQL || bo.Op == token.NEQ) {
-							if ts := stdCall(bo.X, "strings", "TrimSpace"); ts != nil && ts.Call.Args[0] == v && holds(bo, bo.Op == token.EQL) {
+							if ts := stdCall(bo.X, "strings", "TrimSpace"); ts != nil && isPart(ts.Call.Args[0]) && holds(bo, bo.Op == token.EQL) {
 								blank = true
 							}
 						}
 						if k, isK := ir.ConstInt(bo.Y); isK {
 							if lc, isCall := bo.X.(*ssa.Call); isCall && len(lc.Call.Args) == 1 {
 								if bi, isB := lc.Call.Value.(*ssa.Builtin); isB && bi.Name() == "len" {
-									if ts := stdCall(lc.Call.Args[0], "strings", "TrimSpace"); ts != nil && ts.Call.Args[0] == v {
+									if ts := stdCall(lc.Call.Args[0], "strings", "TrimSpace"); ts != nil && isPart(ts.Call.Args[0]) {
 										for _, want := range []bool{true, false} {
 											z, okZ := lenCmp(bo.Op, 0, k)
 											o, _ := lenCmp(bo.Op, 1, k)
@@ -981,14 +1007,14 @@ func help2helpers(c *Ctx, ph *ssa.Function) {
 						opaque := false
 						for _, cd := range ir.DominatingConds(lf.from) {
 							if call, isCall := cd.V.(*ssa.Call); isCall {
-								if f := ir.Static(call); f != nil && f.Pkg == fn.Pkg && len(call.Call.Args) == 1 && call.Call.Args[0] == v {
+								if f := ir.Static(call); f != nil && f.Pkg == fn.Pkg && len(call.Call.Args) == 1 && isPart(call.Call.Args[0]) {
 									opaque = true
 								}
 							}
 						}
 						if iff, isIf := lf.from.Instrs[len(lf.from.Instrs)-1].(*ssa.If); isIf {
 							if call, isCall := iff.Cond.(*ssa.Call); isCall {
-								if f := ir.Static(call); f != nil && f.Pkg == fn.Pkg && len(call.Call.Args) == 1 && call.Call.Args[0] == v {
+								if f := ir.Static(call); f != nil && f.Pkg == fn.Pkg && len(call.Call.Args) == 1 && isPart(call.Call.Args[0]) {
 									opaque = true
 								}
 							}
